@@ -149,6 +149,81 @@ func init() {
 		Real: append(append([]string{}, realComponents...), "commit.OpenTemp recorder file in a private TMPDIR"), Stub: concStub,
 	})
 	register(&PropDef{
+		ID: "C13", Quick: 500, Thorough: 40000, Level: "fault_enumeration", Unit: "fault_points",
+		Rule: "histories: 1-3 writers commit while a snapshotter thread takes 1-2 snapshots (so that snapshots carry a log tail recorded under concurrent commits) and every commit is also serialized to a commit.Log on a SimFile; crash points per stream: every byte prefix while the stream is below the tier's bound (quick 2 KiB, thorough 64 KiB), otherwise every recorded write boundary +-2 plus a seeded sample; at a third of the points a read error replaces EOF, a third of the restores read through 1/5/64-byte chunks; oracle: Restore/Range return within 10 s without panic, a nil Restore leaves a state equal to the complete state part plus some prefix of the logged commits (reference states rebuilt by appending j commits to a fresh log), Range delivers a prefix of the original commits, each identical; evaluations = fault points; distinct = distinct (interleaving, end state) of the producing histories",
+		Gen: func(seed uint64, run int, tier string) *Case {
+			cs := genConc("C13", seed, run, concProfile{minWriters: 1, maxWriters: 3, maxTxns: 3, maxOps: 3, snapshots: 1,
+				wUpdate: 8, wMerge: 3, wInsert: 3, wDeleteOwn: 2, wRangeWrite: 1,
+				pAbort: 0.05, multiBlock: 0.4, maxCols: 4, stableRows: [2]int{1, 4}}, knownAvoid("C13", seed, run))
+			cs.Cfg.Capacity = []int{1, 64, 1024}[run%3]
+			cs.Cfg.Params["tier_thorough"] = b2i(tier == "thorough")
+			return cs
+		},
+		Exec: func(cs *Case) *World {
+			bound, samples := 2048, 120
+			if cs.Cfg.Params["tier_thorough"] == 1 {
+				bound, samples = 65536, 600
+			}
+			return runConc(cs, concOracles{log: true, truncate: [2]int{bound, samples}})
+		},
+		Real: append(append([]string{}, realComponents...), "commit.OpenTemp recorder file in a private TMPDIR"),
+		Stub: []string{"disk: SimFile (records write boundaries) and SimReader (crash truncation at any byte, read error at byte n, seeded read chunking)", "thread scheduler producing the streams"},
+	})
+	register(&PropDef{
+		ID: "C14", Quick: 2000, Thorough: 20000, Level: "fault_enumeration", Unit: "fault_points",
+		Rule: "histories: single-client histories ending in an empty, single-block or multi-block collection (all column kinds); against the final collection every write-call index k of the destination (fail-forever, and fail-once for odd k), every byte budget n while the stream is below the tier's bound (quick 1 KiB, thorough 8 KiB; otherwise write boundaries +-2 plus a sample) and 'temp dir unavailable' are injected; oracle: Snapshot returns non-nil iff the SimFile actually returned an error to some write (or the temp file could not be created); after each call the private TMPDIR is empty and /proc/self/fd is unchanged (GC off), and every 7th point a transaction commits, a Snapshot to a healthy SimFile succeeds and restores to the model; evaluations = fault points",
+		Gen: func(seed uint64, run int, tier string) *Case {
+			p := seqProfile{minSteps: 0, maxSteps: 10, wTxn: 20,
+				wInsert: 10, wAt: 6, wDelete: 3,
+				pAbort: 0.05, pMerge: 0.3, maxCols: 6, multiBlock: 0.4, pKeyCol: 0.15}
+			cs := genSeq("C14", seed, run, p, knownAvoid("C14", seed, run))
+			if cs.Cfg.Capacity > 20000 {
+				cs.Cfg.Capacity = 1024
+			}
+			if cs.Cfg.Prefill != nil {
+				cs.Cfg.Prefill.KeepFull, cs.Cfg.Prefill.Holes = nil, nil
+			}
+			cs.Cfg.Params = map[string]int{"tier_thorough": b2i(tier == "thorough")}
+			return cs
+		},
+		Exec: func(cs *Case) *World {
+			bound, samples := 1024, 100
+			if cs.Cfg.Params["tier_thorough"] == 1 {
+				bound, samples = 8192, 400
+			}
+			return runSeq(cs, seqOracles{dump: true, final: func(w *World) { w.snapshotFaultChecks(bound, samples) }})
+		},
+		Real: append(append([]string{}, realComponents...), "commit.OpenTemp recorder file in a private TMPDIR, /proc/self/fd"),
+		Stub: []string{"disk: SimFile with a write fault plan (error at call k, short write after n bytes, fail-once, fail-forever)"},
+	})
+	register(&PropDef{
+		ID: "C05", Quick: 6000, Thorough: 200000, Level: "exploration",
+		Rule: "even runs (foreign producer F): a simulated peer builds commit.Buffers through the public Put* API from a seeded operation sequence (delete/insert/put/merge/bool x 2/4/8-byte and string/bytes 0..65535 x offset moves same,+1,+small,+128..,+16384..,block jump,backwards,back to block 0), every buffer is read back with Seek and per-block Range, through Buffer.WriteTo/ReadFrom, Clone, Commit.WriteTo/ReadFrom and Log.Append/Range over the simulated disk (seeded read chunking down to 1 byte), merges are replaced through the reader's Swap calls (same and different length) and re-read, and F's transactions are shipped through a commit.Log to REPLICA-F whose dump must equal the model; odd runs (real path): single-client histories in which every commit handed to the logger is decoded and compared op for op with what the transaction issued (merges as puts of the merged result) and is cloned and serialized through the simulated disk; non-trivial = at least one shipped or emitted commit; distinct = distinct final model state",
+		Gen: func(seed uint64, run int, tier string) *Case {
+			if run%2 == 1 {
+				p := seqProfile{minSteps: 4, maxSteps: 20, wTxn: 20, wCreateIndex: 1,
+					wInsert: 8, wAt: 10, wRange: 3, wDelete: 3, wDeleteAll: 1, wKey: 6,
+					pAbort: 0.05, pMerge: 0.45, maxCols: 8, multiBlock: 0.6, pKeyCol: 0.2, indexes: true}
+				return genSeq("C05", seed, run, p, knownAvoid("C05", seed, run))
+			}
+			cs := genSeq("C05", seed, run, seqProfile{maxCols: 8}, knownAvoid("C05", seed, run))
+			cs.World = "codec"
+			cs.Cfg.Prefill = nil
+			cs.Steps = nil
+			if cs.Cfg.Capacity > 20000 {
+				cs.Cfg.Capacity = 1024
+			}
+			return cs
+		},
+		Exec: func(cs *Case) *World {
+			if cs.World == "codec" {
+				return runCodec(cs)
+			}
+			return runSeq(cs, seqOracles{dump: true, stream: true, roundtrip: true})
+		},
+		Real: realComponents, Stub: []string{"disk: SimFile/SimReader under Buffer/Commit WriteTo/ReadFrom and commit.Log", "foreign producer F (harness code using only the public commit.Buffer Put* API)"},
+	})
+	register(&PropDef{
 		ID: "C07", Quick: 4000, Thorough: 120000, Level: "exploration",
 		Rule: "single-client histories with repeated restart steps: Snapshot to a SimFile, Restore through a seeded chunking reader (1 byte .. whole) into a fresh collection with the same schema (indexes created before or after), swap it in and continue the history against the same model; after every step the full dump (values, Count, indexes, keys) is compared and every insert offset is checked against the model's live set; " + ruleSeq,
 		Gen: func(seed uint64, run int, tier string) *Case {
@@ -229,4 +304,11 @@ func init() {
 		Exec: func(cs *Case) *World { return runSeq(cs, seqOracles{dump: true, triggers: true}) },
 		Real: realComponents, Stub: seqStub,
 	})
+}
+
+func b2i(b bool) int {
+	if b {
+		return 1
+	}
+	return 0
 }
